@@ -49,6 +49,28 @@ class StubFcEvaluator(FcEvaluator):
         return self.stub_methods.get(condition_key)
 
 
+class StubMethodRcEvaluator(RcEvaluator):
+    """a custom evaluator in the documented style: one method per key, plus helpers whose names merely start alike"""
+
+    def _get_default_context(self):
+        return EvaluationContext(scope=None)
+
+    def evaluate_7(self, evaluatable_data, context):
+        return "seven"
+
+    def evaluate_77(self, evaluatable_data, context):
+        return "seventy-seven"
+
+    def evaluate_7_legacy(self, evaluatable_data, context):
+        return "helper"
+
+    def evaluate_all(self, evaluatable_data, context):
+        return "helper"
+
+    def re_evaluate_7(self, evaluatable_data, context):
+        return "helper"
+
+
 class StubHintsProvider(HintsProvider):
     async def get_hint_text(self, condition_key):
         return self.table.get(condition_key)
